@@ -77,38 +77,87 @@ func runC09(c *core.Ctx) {
 			if sel == nil {
 				return false, "worker does not select on the job channel"
 			}
+			// the call of the received job: in the worker body itself or in a helper it hands the job to
+			isJob := func(v ssa.Value, stack []*ssa.Call) bool {
+				r, st := core.Up(v, stack)
+				ex, isE := core.Resolve(r).(*ssa.Extract)
+				return isE && len(st) == 0 && ex.Tuple == ssa.Value(sel)
+			}
 			var jobCall *ssa.Call
+			var jstack []*ssa.Call
 			nJobCalls := 0
-			core.Instrs(body, func(ins ssa.Instruction) {
+			for _, f := range core.DeepFind(p, body, func(ins ssa.Instruction) bool {
 				switch x := ins.(type) {
 				case *ssa.Call:
-					if ex, isE := core.Resolve(x.Call.Value).(*ssa.Extract); isE && ex.Tuple == ssa.Value(sel) {
-						jobCall, nJobCalls = x, nJobCalls+1
+					return core.Callee(&x.Call) == nil && !x.Call.IsInvoke()
+				case *ssa.Go:
+					return true
+				}
+				return false
+			}) {
+				switch x := f.Ins.(type) {
+				case *ssa.Call:
+					if isJob(x.Call.Value, f.Stack) {
+						jobCall, jstack, nJobCalls = x, f.Stack, nJobCalls+1
 					}
 				case *ssa.Go:
-					if ex, isE := core.Resolve(x.Call.Value).(*ssa.Extract); isE && ex.Tuple == ssa.Value(sel) {
+					if isJob(x.Call.Value, f.Stack) {
 						nJobCalls += 100
 					}
 				}
-			})
+			}
 			if nJobCalls != 1 {
 				return false, fmt.Sprintf("the received job is invoked %d times / asynchronously (must be one direct call)", nJobCalls)
 			}
+			// anchor: the instruction of the worker body that leads to the job call
+			anchor := ssa.Instruction(jobCall)
+			if len(jstack) > 0 {
+				anchor = jstack[0]
+			}
 			nonNil := false
-			for _, m := range core.EdgeCmps(jobCall.Block()) {
-				if m.Op == token.NEQ && core.IsNilConst(m.Y) && core.Resolve(m.X) == core.Resolve(jobCall.Call.Value) {
-					nonNil = true
+			blocks := []*ssa.BasicBlock{jobCall.Block()}
+			for _, sc := range jstack {
+				blocks = append(blocks, sc.Block())
+			}
+			for bi, bb := range blocks {
+				for _, m := range core.EdgeCmps(bb) {
+					var stk []*ssa.Call
+					if bi == 0 {
+						stk = jstack
+					} else {
+						stk = jstack[:bi-1]
+					}
+					if m.Op == token.NEQ && core.IsNilConst(m.Y) && isJob(m.X, stk) {
+						nonNil = true
+					}
 				}
 			}
 			if !nonNil {
 				return false, "a nil job (closed queue) would be invoked"
 			}
-			min, max := core.PathCountIter(jobCall.Block(), nil, func(ins ssa.Instruction) int {
-				if ins == ssa.Instruction(jobCall) {
+			min, max := core.PathCountIter(anchor.Block(), nil, func(ins ssa.Instruction) int {
+				if ins == anchor {
 					return 1
 				}
 				return 0
 			}, nil)
+			for i := range jstack {
+				// inside each helper on the way: the next call / the job call happens exactly once per execution
+				h := core.Callee(&jstack[i].Call)
+				next := ssa.Instruction(jobCall)
+				if i+1 < len(jstack) {
+					next = jstack[i+1]
+				}
+				hmin, hmax := core.PathCount(h, func(ins ssa.Instruction) int {
+					if ins == next {
+						return 1
+					}
+					return 0
+				}, nil)
+				if hmin != 1 || hmax != 1 {
+					min, max = 0, hmax
+				}
+			}
 			if min != 1 || max != 1 {
 				return false, "the job is not invoked exactly once per receive"
 			}
@@ -132,7 +181,7 @@ func runC09(c *core.Ctx) {
 			if def == nil {
 				return false, "no deferred recover() in the job-running goroutine: a panicking job kills the process"
 			}
-			if !core.InstrDominates(def, jobCall) {
+			if !core.InstrDominates(def, anchor) {
 				return false, "the recover-defer is registered after the job call on some path"
 			}
 			exit := callTarget(p, &def.Call)
